@@ -9,6 +9,7 @@ import Driver.BlockOps
 import Driver.ThreadsOps
 import Driver.TocOps
 import Driver.SerializerOps
+import Driver.DocOps
 import Driver.BlockExtOps
 import Driver.CodecOps
 import Driver.ConfigOps
@@ -22,6 +23,6 @@ import Driver.CodeOps
 
 namespace Driver
 
-def handlers : List Handler := [registryHandler, dispatchHandler, normalizeHandler, tablesHandler, blockHandler, threadsHandler, tocHandler, serializerHandler, codeHandler, pyHandler, inlineHandler, triggerHandler, extractEvHandler, attrListHandler, pipelineHandler, configHandler, codecHandler, blockExtHandler]
+def handlers : List Handler := [registryHandler, dispatchHandler, normalizeHandler, tablesHandler, blockHandler, threadsHandler, tocHandler, serializerHandler, codeHandler, pyHandler, inlineHandler, triggerHandler, extractEvHandler, attrListHandler, pipelineHandler, configHandler, codecHandler, blockExtHandler, docHandler]
 
 end Driver
